@@ -500,7 +500,7 @@ def op_transform(rng, specs):
     mid = str(rng.choice(_mesh_ids(specs, unit=False)))
     return dict(mid=mid, what=str(rng.choice(["refined", "translated", "scaled", "mirrored", "with_boundaries",
                                                 "with_subdomains", "restrict", "facets", "f2t", "boundary", "adaptive",
-                                                "save-dict", "params", "remove_elements", "smoothed"])))
+                                                "save-dict", "params", "remove_elements", "smoothed", "oriented"])))
 
 
 def run_transform(env, a):
@@ -537,6 +537,10 @@ def run_transform(env, a):
         if s["kind"] not in ("tri", "tet"):
             raise Skip("no-smoothing")
         out = m.smoothed()
+    elif w == "oriented":
+        if s["kind"] not in ("tri", "tet"):
+            raise Skip("no-orientation")
+        out = m.oriented()
     elif w == "facets":
         out = [np.asarray(m.facets), np.asarray(m.t2f)]
     elif w == "f2t":
